@@ -7,8 +7,7 @@ from . import base
 from ..arith import warm, overwrite_in_place
 
 TRUSTED_BASE = base.TRUSTED_BASE + ['np.binary_repr / str.format("X") / np.base_repr / int(str, base) are modelled by digit-list functions (Model/Digits.lean)']
-ASSUMPTIONS = base.ASSUMPTIONS + ['strings fed back to constructor/call/set_val carry the 0b / 0x prefix (an unprefixed digit string is a decimal numeral for those routes); from_bin takes the unprefixed rendering',
-                                  '2-D renderings are fed back as nested lists / string arrays (np.array(x.bin()))']
+ASSUMPTIONS = base.ASSUMPTIONS + ['strings fed back to constructor/call/set_val carry the 0b / 0x prefix (an unprefixed digit string is a decimal numeral for those routes); from_bin takes the unprefixed rendering']
 RULE = ('SB/SH/SR: rendering of all codes for n_word<=6 (quick) / <=8 (thorough), all n_frac 0..n_word, with and without binary point and prefix; boundary/random codes for n_word up to 256; scalars, 1-D and 2-D arrays (row-major, transposed and column-major). '
         'SP: render on the implementation, feed back by constructor/call/set_val/from_bin (method and function) in value mode (n_word<=53) and raw mode (to 256 bits), n_word>=2; '
         'non-trivial = negative code, or n_frac>0, or n_word not a multiple of 4 (hex)')
@@ -116,7 +115,9 @@ def exec_SP(t):
         else:
             r = x.bin(frac_dot=(kind == 'bindot'), prefix=(None if frombin else '0b'))
         if shape >= 2:
-            r = np.array(r).tolist() if route != 'ctor' else np.array(r)
+            # a 2-D rendering is a list of per-row string arrays: it is fed back as it is, as one string array, or as nested lists
+            k = (len(codes) + n + codes[-1]) % 3
+            r = r if k == 0 else np.array(r) if k == 1 else np.array(r).tolist()
         if route == 'ctor':
             y = Fxp(r, s, n, f, raw=raw)
         elif route == 'frombin_fn':
